@@ -423,6 +423,70 @@ def addFaithful (r : AddReq) (o : AddResp) : Bool :=
     addCmp oa == addCmp w && addCmp p.opts == addCmp w && p.type == .dataT && p.ref == none && sm == .recursive
   | _, _ => false
 
+/-! "with exactly … the options it carried", for the add options: every add option the request carries
+explicitly reaches the adder unchanged; one it does not carry has the documented default (`DefaultAddParams`;
+layout and format are passed on as texts, absent = ""), where two defaults are derived by the documented
+go-ipfs rules: no `cid-version` = 0, or 1 when the hash function asked for is not sha2-256 (a CIDv0 cannot carry
+it); no `raw-leaves` = "the CID version is above 0".  An explicit value is never overridden by a derived one. -/
+
+def wordCarried (v : QV) (dflt seen : String) : Bool :=
+  match v with
+  | .empty => seen == dflt
+  | .valid (.str s) => seen == s
+  | _ => true            -- undecodable: the request is malformed, `fail_closed` speaks
+
+def boolCarried (v : QV) (dflt seen : Bool) : Bool :=
+  match v with
+  | .empty => seen == dflt
+  | .valid (.bool b) => seen == b
+  | _ => true
+
+def hashIsOther (q : List (String × QV)) : Bool :=
+  match getq q "hash" with
+  | .empty => false
+  | .valid (.str s) => s != "sha2-256"
+  | _ => true
+
+def cidvCarried (q : List (String × QV)) (seen : Int) : Bool :=
+  match getq q "cid-version" with
+  | .empty => seen == (if hashIsOther q then 1 else 0)
+  | .valid (.int i) => seen == i
+  | _ => true
+
+/-- the `AddParams` handed to the adder carry exactly the add options of the query -/
+def seenExact (q : List (String × QV)) (s : AddSeen) : Bool :=
+  wordCarried (getq q "layout") "" s.layout && wordCarried (getq q "chunker") "size-262144" s.chunker &&
+  wordCarried (getq q "hash") "sha2-256" s.hash && wordCarried (getq q "format") "" s.format &&
+  boolCarried (getq q "local") false s.loc && boolCarried (getq q "recursive") false s.recursive &&
+  boolCarried (getq q "hidden") false s.hidden && boolCarried (getq q "wrap-with-directory") false s.wrap &&
+  boolCarried (getq q "shard") false s.shard && boolCarried (getq q "progress") false s.progress &&
+  cidvCarried q s.cidv && boolCarried (getq q "raw-leaves") (decide (s.cidv > 0)) s.rawLeaves &&
+  boolCarried (getq q "stream-channels") true s.stream && boolCarried (getq q "nocopy") false s.nocopy
+
+/-- … and the blocks the adder puts are built with the leaf form the request asked for by name -/
+def leafExact (q : List (String × QV)) (leaf : String) : Bool :=
+  leaf == "-" ||
+  (match getq q "raw-leaves" with
+   | .valid (.bool b) => leaf == (if b then "raw" else "pb")
+   | _ => true)
+
+def addOptionsExact (r : AddReq) (o : AddResp) : Bool :=
+  (match o.seen with
+   | some s => seenExact r.query s
+   | none => false) && leafExact r.query o.leaf
+
+/-- the query of an add request is well-formed: the part of `addMalformed` that speaks about the query alone -/
+def addQueryOk (q : List (String × QV)) (md : List (Nat × Nat)) : Bool :=
+  (carried q md).isSome && addOptionsOk q && !versionContradiction q && !hasGarbled q
+
+/-- the clauses for `AddParamsFromQuery` on its own (case kind `addp`): a query with an undecodable option is refused;
+    a well-formed one is turned into `AddParams` carrying exactly its add options -/
+def parseClauses (q : List (String × QV)) (md : List (Nat × Nat)) (seen : Option AddSeen) : List (String × Bool) :=
+  if addQueryOk q md then
+    [("options_exact", match seen with | some s => seenExact q s | none => false)]
+  else if (lateWord (getq q "chunker") "").isNone || (lateWord (getq q "hash") "").isNone then []   -- found out late: K24's subject
+  else [("fail_closed", seen.isNone)]
+
 def addAuthorized (r : AddReq) : Bool := !r.creds || r.auth == .right
 
 def addStreams (r : AddReq) : Bool := getq r.query "stream-channels" != .valid (.bool false)
@@ -437,7 +501,8 @@ def addClauses (r : AddReq) (o : AddResp) : List (String × Bool) :=
   (if !addAuthorized r then []
    else if addMalformed r then [("fail_closed", is4xx o.status && o.ops.isEmpty)]
    else if r.rpc == .ok then [("faithful", addFaithful r o)]
-   else [])
+   else []) ++
+  (if addMalformed r || !addAuthorized r || r.rpc != .ok then [] else [("options_exact", leafExact r.query o.leaf)])
 
 def addHolds (r : AddReq) (o : AddResp) : Bool := (addClauses r o).all (·.2)
 
